@@ -307,7 +307,10 @@ var jC09 = reg(&Judge{
 		Policies: []string{"", "no", "always", "on_failure", "exit_on_failure"}, MaxRestartsMax: 2, BackoffMax: 1,
 		Probes: true, ReadyLines: true, MaxSteps: 10, Codes: []int{0, 1, 3},
 		ExitOnFlags: true, StartErr: true, BadDir: true, SignalBeh: []string{"", "", "hold", "ignore"}, Disabled: true,
-		APIOps: []string{sc.OpStart, sc.OpStop, sc.OpRestart, sc.OpShutdown}, UnknownNames: true},
+		APIOps: []string{sc.OpStart, sc.OpStop, sc.OpRestart, sc.OpShutdown}, UnknownNames: true,
+		// snapshots taken while a process is parked between exit and relaunch show the transient states
+		// (not run.afterWait: there the command has exited and the supervisor has not yet been allowed to notice)
+		Holds: []string{"run.afterBackoff", "run.afterTerminatingCheck"}, HoldOps: []string{sc.OpStop}, BackoffStops: true},
 	Oracle: oracle.C09,
 	Classify: func(h *sc.History, x *oracle.Idx) (bool, []string) {
 		var labels []string
